@@ -345,3 +345,51 @@ PROPERTIES["C13"] = dict(
     harnesses=[],
     smt=dict(module="props_c13", K=6, N=24, timeout_ms=900000),
 )
+
+# --------------------------------------------------------------------------- C17
+PROPERTIES["C17"] = dict(
+    title="BMFF mdat hashing is independent of how the payload is chunked",
+    level="model_checking",
+    engine="smt",
+    technique="symbolic execution of the Rust source (syn AST -> bit-vector SMT over bounded byte strings) with an identity-recorder digest, decided by z3; native replay with real SHA-256",
+    level_text=("Bounded symbolic checking of the SOURCE of MerkleAccumulator::add_merkle_leaf -- the routine every incremental caller "
+                "(Builder::hash_bmff_mdat_bytes) goes through: the mdat bytes, the fixed leaf size and the SPLIT POINTS are SMT variables; "
+                "the routine is executed symbolically once on the whole mdat and once per piece, and z3 decides for all of them that the "
+                "recorded leaves and the buffered remainder are the same.  A split inside the 8-byte box header or inside a leaf is "
+                "exactly the schedule sampled tests do not try."),
+    level_note=("Kernel-level, fixed-leaf-size mode: payload up to 6 (quick) / 8 (thorough) bytes, leaf size 1..=3/4 bytes (the routine only "
+                "compares and subtracts sizes), one split point (quick) or two (thorough), standard and large mdat headers.  Models: the two "
+                "maps hold one mdat id; hash_by_alg is the identity (equal leaves <=> equal digest inputs); Cursor is an in-memory stream.  "
+                "What BmffHash/Builder/Reader do with the leaves (sign_embeddable, validation of the asset) is outside."),
+    scope="sdk/src/utils/merkle.rs MerkleAccumulator::add_merkle_leaf",
+    outside=["the variable-leaf mode (one leaf per call: chunking-dependent by design)", "several interleaved mdat ids", "Builder/BmffHash/Reader around the accumulator",
+             "payloads and leaf sizes beyond the tier bound"],
+    assumptions=["z3 is sound for QF_BV", "the symbolic interpreter (symex.py) is faithful for the constructs it accepts (fails closed otherwise)",
+                 "model: HashMap/BTreeMap restricted to one key (contains_key/get/get_mut/insert/remove/entry.and_modify.or_insert)",
+                 "model: hash_by_alg is injective (identity recorder)"],
+    harnesses=[],
+    smt=dict(module="props_c17", K=6, N=24, timeout_ms=1200000),
+)
+
+# --------------------------------------------------------------------------- C23
+PROPERTIES["C23"] = dict(
+    title="Cancellation is always reported as cancellation",
+    level="model_checking",
+    engine="smt",
+    technique="symbolic execution of the Rust source (syn AST -> bit-vector SMT) of the checkpoint and of the hashing loops with a symbolic cancelling callback, decided by z3; native replay through hooks",
+    level_text=("Bounded symbolic checking of the two kernels where cancellation and step numbers are decided: Context::check_progress (callback "
+                "verdict and cancel flag symbolic: fails with OperationCancelled exactly when asked to stop) and the hashing loops of "
+                "hash_stream_by_alg_with_progress_impl, both branches, with a callback that says stop at a SYMBOLIC checkpoint index: z3 "
+                "decides for all data, ranges, chunk sizes and stop points that hashing then fails with the callback's own error, that no "
+                "further checkpoint is reached, and that steps are 1, 2, 3... within a non-zero total."),
+    level_note=("Kernel-level.  The property is mostly about dozens of call sites in Store/Claim/Builder/Reader forwarding the checkpoint's "
+                "error; those async-generic pipelines cannot be encoded and are outside.  cancel() from another thread is outside (no "
+                "concurrency).  Stubs as for C13 (recorder digest, in-memory stream, RangeSet by specification, thread-at-spawn)."),
+    scope="sdk/src/context.rs Context::check_progress; sdk/src/utils/hash_utils.rs hash_stream_by_alg_with_progress_impl (progress/cancellation behaviour)",
+    outside=["every other progress call site (Store, Claim::verify_hash_binding, BmffHash/BoxHash/DataHash verify_*_with_progress, Builder, Reader)",
+             "Context::cancel from another thread", "phase bookkeeping (ProgressPhase) across operations"],
+    assumptions=["z3 is sound for QF_BV", "the symbolic interpreter (symex.py) is faithful for the constructs it accepts (fails closed otherwise)",
+                 "stubs of C13 (recorder digest, stream, RangeSet, thread-at-spawn + one-slot channel); AtomicBool::load returns the flag; log macros have no effect"],
+    harnesses=[],
+    smt=dict(module="props_c23", K=6, N=24, timeout_ms=600000),
+)
